@@ -1,6 +1,7 @@
 import Drive.Util
 import Drive.Timer
 import Drive.Interp
+import Drive.Btdmp
 /-!
 Line-protocol driver for the executable model: one request per line on stdin, one response per
 line on stdout.  `<unit> <op> <hex args…>`.
@@ -10,11 +11,13 @@ open Drive Teakra
 structure St where
   timer : Timer := {}
   core : Core := {}
+  btdmp : Btdmp := {}
 
 def stepLine (st : St) (line : String) : St × String :=
   match (line.trimAscii.toString.splitOn " ").filter (· ≠ "") with
   | "timer" :: args => let (t, out) := timerStep st.timer args; ({ st with timer := t }, out)
   | "interp" :: args => let (c, out) := interpStep st.core args; ({ st with core := c }, out)
+  | "btdmp" :: args => let (b, out) := btdmpStep st.btdmp args; ({ st with btdmp := b }, out)
   | [] => (st, "")
   | _ => (st, "bad-unit")
 
